@@ -15,6 +15,18 @@ NA = {
 PENDING = "check under construction in this session (see DESIGN.md 10 build order)"
 
 CHECKS = {
+    "C05": dict(
+        category="other",
+        text="Path/CFG rules over the MIR of every crate-local instance reachable from a sampling root: acyclic call graph; every natural "
+             "loop has a non-panic exit whose condition depends (in-loop def-use slice through references and calls) on a fresh RNG draw or on "
+             "a loop-carried recurrence/iterator; the three documented escape hatches exist and dominate/are placed where they work. This is a "
+             "NECESSARY structural condition for termination, valid for every parameter value and stream; it does not bound iteration counts.",
+        design_ref="DESIGN.md 5/C05",
+        note="Not decided: mean/maximum number of RNG words, acceptance rates, data-bounded recurrences (BTPE 5.1 / H2PE 4.1, e.g. the 2^63-step walk for "
+             "Binomial(u64::MAX, 0.5) named in the property), CPU time. Trusted: rand's uniform samplers return; core iterators are finite.",
+        technique="CFG analysis on rustc MIR: natural loops, exit-edge enumeration, in-loop backward def-use slicing, dominators, call-graph SCCs",
+        engine="rdx+E4",
+    ),
     "C06": dict(
         category="other",
         text="Exhaustive constant-table verification plus structural wiring rules: all 4x257 table entries and both tail constants, as "
